@@ -7,6 +7,6 @@ git diff --quiet || { echo "repo dirty"; exit 2; }
 sed -i "$E" "$F"
 if git diff --quiet; then echo "MUTANT DID NOT APPLY"; exit 2; fi
 go build ./$(dirname $F)/ 2>&1 | head -3
-cd /verif && bin/gocv check $P quick 2>&1 | cut -c1-220 | tail -4
+cd /verif && ./check $P quick 2>&1 | cut -c1-220 | tail -4
 echo "exit=$?"
 cd /repo && git checkout -- "$F"
